@@ -150,8 +150,8 @@ func pathFinish(s *Summary) {
 			p := tokStr(tp.P)
 			var r *rux.Router
 			if !guard(s, map[string]any{"kind": "path", "registered": p, "what": "Add"}, tp.P, func() {
-				r = rux.New(strictOpts(st)...)
-				r.Add(p, nopHandler)
+				r = rux.New(append(strictOpts(st), rux.HandleMethodNotAllowed)...)
+				r.Add(p, nopHandler, "GET")
 			}) {
 				continue
 			}
@@ -165,6 +165,16 @@ func pathFinish(s *Summary) {
 				guard(s, desc, []any{tp.P, tq.P}, func() {
 					rt, _, _ := r.Match("GET", q)
 					s.Compared++
+					// every way a request can reach the route normalises alike: the direct lookup, the HEAD -> GET fallback and
+					// the probe for the allowed methods of a 405 answer
+					hd, _, _ := r.Match("HEAD", q)
+					_, _, allowed := r.Match("POST", q)
+					if (hd != nil) != want || (len(allowed) == 1 && allowed[0] == "GET") != want {
+						desc["what"] = fmt.Sprintf("route registered as %q (path %q) for GET, request path %q (normal form %q), strict=%s: spec reached=%v, but HEAD fallback reached=%v, allowed methods for POST %v",
+							p, regNorm, q, tokStr(tq.Req[st]), st, want, hd != nil, allowed)
+						s.mismatch(desc, []any{tp.P, tq.P})
+						return
+					}
 					if (rt != nil) != want {
 						desc["what"] = fmt.Sprintf("route registered as %q (path %q), request path %q (normal form %q), strict=%s: reached=%v, spec %v",
 							p, regNorm, q, tokStr(tq.Req[st]), st, rt != nil, want)
